@@ -11,7 +11,7 @@ from .fm import *
 
 E = 10
 HINT = {'pa': 10 ** 6, 'pb': 5 * 10 ** 5, 'F': 8 * 10 ** 5, 'C': 10 ** 5, 'F2': 10 ** 6, 'C2': 0, 'X_lp1': 3, 'X_usd': 0, 'X_om': 0, 'wa': 10 ** 6, 'T': 10 ** 7,
-        'amount': 10 ** 5, 'rate': 10 ** 5, 'exp_b': 5 * DAY, 'rate3': 10 ** 3, 'C3': 10 ** 3, 'pb2': 10 ** 5, 'wb': 10 ** 5}
+        'amount': 10 ** 5, 'rate': 10 ** 5, 'exp_b': 5 * DAY, 'rate3': 10 ** 3, 'C3': 10 ** 3, 'pb2': 10 ** 5, 'wb': 10 ** 5, 'declared_epochs': 2}
 DENOMS = (LP1, 'uusd', 'uom')
 
 
@@ -114,9 +114,10 @@ def run(I, ch, b, op, v):
         b.set('dave', 'uom', 1000)
         return ch.execute('dave', FM, manage_farm('Create', params=farm_params(LP1, coin_v('uusd', amt), E + 1, E + 5)), [coin_v('uom', 1000), coin_v('uusd', amt)])
     if op == 'expand_farm':
-        add = simp(v['rate'] * 2)
+        add = simp(v['rate'] * 2)                  # attached: two more epochs of emission
+        decl = simp(v['rate'] * I.sym('declared_epochs', lo=1, hi=1000))        # declared in the message: any multiple of the rate
         b.set('fowner', 'uusd', add)
-        return ch.execute('fowner', FM, manage_farm('Expand', params=farm_params(LP1, coin_v('uusd', add), ident='f-1')), [coin_v('uusd', add)])
+        return ch.execute('fowner', FM, manage_farm('Expand', params=farm_params(LP1, coin_v('uusd', decl), ident='f-1')), [coin_v('uusd', add)])
     if op == 'close_farm':
         return ch.execute('fowner', FM, manage_farm('Close', farm_identifier='f-1'), [])
     if op == 'close_lp_reward_farm':
@@ -195,7 +196,7 @@ def _build(op):
         elif op == 'expand_farm':
             d['mints'].append(('fowner', [('uusd', rate * 2)]))
             d['txs'] = [('fowner', Fm('expand', params={'lp_denom': rj(LP1), 'start_epoch': None, 'preliminary_end_epoch': None, 'curve': None,
-                                                        'farm_asset': coin_j('uusd', rate * 2), 'farm_identifier': 'f-1'}), [('uusd', rate * 2)])]
+                                                        'farm_asset': coin_j('uusd', rate * m.get('declared_epochs', 2)), 'farm_identifier': 'f-1'}), [('uusd', rate * 2)])]
         elif op == 'close_farm':
             d['txs'] = [('fowner', Fm('close', farm_identifier='f-1'), [])]
         else:
